@@ -82,6 +82,9 @@ def gen_c12(tier: str, rng: random.Random) -> Iterator[Dict[str, Any]]:
             singles_pairs = [s for s in seqs if len(s) <= 2]
             longer = [s for s in seqs if len(s) > 2]
             seqs = rng.sample(singles_pairs, min(len(singles_pairs), 170)) + rng.sample(longer, min(len(longer), 80))
+            # always: every message of the alphabet placed inside an otherwise valid response (it may raise or
+            # not - the response around it has to arrive whole), and in front of one
+            seqs += [[al[0], m, al[8]] for m in al if m is not al[8]] + [[m, al[0], al[8]] for m in al[7:]]
         for i, seq in enumerate(seqs):
             prog: List[Any] = [["recv_body"]] + [["send", m] for m in fix_offsets(seq)] + [["recv_disc"]]
             fam = "asgi/%s/%s" % (carrier, "+".join("%s:%s" % (m["type"].split(".")[-1], m["cls"]) for m in seq))
